@@ -238,6 +238,44 @@ def run(ctx):
         if len(ctx.samples) < 5 and rng.random() < 0.002:
             ctx.sample({"seed": kind, "fault": fclass, "beside_valid_sources": len(cs), "rc": r.rc, "stderr_head": r.err[:120]})
     ctx.extra["asan_reports_by_signature"] = asan_sigs
+    # A sanitizer report halts the process, so whatever the program would have done after a *known* report is
+    # hidden in that run. Re-run those cases on the release build and apply the process-status / hang /
+    # undisturbed-sources oracles there.
+    known_sigs = {k["signature"] for k in ctx.known if k.get("status") == "known"}
+    redo = []
+    for (kind, fclass, cs, files, dd, path), (r, hang) in zip(meta, results):
+        logs = glob.glob(os.path.join(dd, "asan.*"))
+        if logs and ("C07|" + asan_signature(open(logs[0], errors="replace").read())) in known_sigs:
+            redo.append((kind, fclass, cs, files, dd, path))
+    rjobs = [(rel, ["--color", "never", "-t=+00:00"] + m[3], core.base_env(tmpdir=m[4]), 120) for m in redo]
+    for (kind, fclass, cs, files, dd, path), (r, hang) in zip(redo, core.pmap(run_one, rjobs)):
+        k0, fc0 = kind.split(":")[0], fclass.split(":")[0]
+        ctx.count("cases re-run on the release build after a known sanitizer report")
+        info = {"argv": r.argv, "env": r.env, "fault": fclass, "seed": kind, "stderr_tail": r.err[-600:], "rc": r.rc, "faulted_file": path, "build": "release"}
+        if hang is not None:
+            if hang != "slow":
+                ctx.violation("C07|hang|%s|%s" % (hang, k0), "release build did not end within 120 s (%s) on %s of %s" % (hang, fclass, kind), src_dir=dd, info=info)
+            else:
+                ctx.inconc("watchdog-slow")
+            continue
+        ctx.evaluated(1, (k0, fc0, len(cs), "release-rc%s" % r.rc))
+        if r.rc is not None and r.rc < 0:
+            ctx.violation("C07|signal|%d|%s" % (-r.rc, k0), "release build killed by signal %d on %s of %s; stderr %r" % (-r.rc, fclass, kind, r.err[-300:]), src_dir=dd, info=info)
+            continue
+        if b"panicked at" in r.err:
+            m = re.search(rb"panicked at ([^\n:]+:\d+)", r.err)
+            ctx.violation("C07|panic|%s" % (m.group(1).decode("latin-1") if m else "?"), "panic on %s of %s: %r" % (fclass, kind, r.err[-300:]), src_dir=dd, info=info)
+        elif r.rc not in (0, 1):
+            ctx.violation("C07|exit-status|%s|%s" % (r.rc, k0), "exit status %s on %s of %s" % (r.rc, fclass, kind), src_dir=dd, info=info)
+        toks = cases.tokens_of(r.out)
+        for c in cs:
+            mine = [t for t in toks if t[0] == c.sid]
+            want = [(c.sid, i) for i in range(len(c.msgs))]
+            if mine != want:
+                ctx.violation("C07|valid-source-disturbed|%s|%s" % (k0, fc0.split("@")[0]),
+                              "valid source %d printed %d of %d messages beside %s of %s (release build)" % (c.sid, len(mine), len(want), fclass, kind),
+                              src_dir=dd, files={"observed.stdout": r.out[:100000]}, info=info)
+                break
     # thorough: valgrind memcheck on a sample with the release build
     if not ctx.quick:
         vjobs = []
